@@ -125,6 +125,7 @@ struct Srv {
     std::map<int, std::string> syncs;
     int next_idx = 0;
     bool eof = false;
+    bool cclosed = false;
 
     bool start() {
         static int seq = 0;
@@ -159,20 +160,42 @@ struct Srv {
         }
     }
 
-    void drain() {
+    static std::string showBytes(const std::string &got) {
+        if (got.size() <= 4096) return vh::hex(got);
+        uint32_t h = 2166136261u;
+        for (unsigned char c : got) { h ^= c; h *= 16777619u; }
+        char buf[64]; snprintf(buf, sizeof(buf), "len=%zu fnv=%08x", got.size(), h);
+        return buf;
+    }
+
+    // run the loop and read at the client until nothing moves any more (a large response needs
+    // the client to read before the server's write event can drain its send buffer)
+    void settle() {
         std::string got;
         bool now_eof = false;
-        if (!eof) {
-            char b[4096];
-            for (;;) {
-                ssize_t n = ::recv(cfd, b, sizeof(b), 0);
-                if (n > 0) { got.append(b, n); continue; }
-                if (n == 0) { now_eof = true; }
-                break;
+        pump();
+        for (int idle = 0, rounds = 0; idle < 2 && rounds < 100000; ++rounds) {
+            size_t before = got.size();
+            if (!eof && !now_eof && cfd >= 0) {
+                char b[65536];
+                for (;;) {
+                    ssize_t n = ::recv(cfd, b, sizeof(b), 0);
+                    if (n > 0) { got.append(b, n); continue; }
+                    if (n == 0) now_eof = true;
+                    break;
+                }
             }
+            idle = (got.size() == before) ? idle + 1 : 0;
+            for (int i = 0; i < 3; ++i) { loop->runNext([] {}, "verif-pass"); loop->runLoop(event::Loop::Mode::kOnce); }
         }
-        std::cout << "P out " << vh::hex(got) << "\n";
+        std::cout << "P out " << showBytes(got) << "\n";
         if (now_eof) { eof = true; std::cout << "P eof\n"; }
+    }
+
+    void clientClose() {
+        if (cfd >= 0) { ::close(cfd); cfd = -1; }
+        eof = true;
+        pump();
     }
 
     void stop() {
@@ -195,7 +218,7 @@ int main() {
         if (w.empty()) continue;
         if (w[0] == "case") { reset(); std::cout << line << "\n"; continue; }
         const std::string &op = w[0];
-        std::vector<uint8_t> d; uint64_t n = 0;
+        std::vector<uint8_t> d; uint64_t n = 0, n2 = 0, n3 = 0;
         bool ok = true;
         try {
             if (op == "method" && w.size() == 2 && vh::unhex(w[1], d)) {
@@ -213,16 +236,34 @@ int main() {
                 sv->syncs[(int)n] = std::string(d.begin(), d.end());
                 std::cout << "P sync\n";
             } else if (op == "seg" && w.size() == 2 && vh::unhex(w[1], d) && sv && !d.empty()) {
-                ::send(sv->cfd, d.data(), d.size(), MSG_NOSIGNAL);
-                sv->pump();
-                sv->drain();
+                if (sv->cfd >= 0) ::send(sv->cfd, d.data(), d.size(), MSG_NOSIGNAL);
+                sv->settle();
             } else if (op == "done" && w.size() == 3 && vh::to_u64(w[1], n) && vh::unhex(w[2], d) && sv && sv->held.count((int)n)) {
                 auto it = sv->held.find((int)n);
                 it->second->res().status_code = StatusCode::k200_OK;
                 it->second->res().body = std::string(d.begin(), d.end());
                 sv->held.erase(it);     // ~Context -> commitRespond
-                sv->pump();
-                sv->drain();
+                sv->settle();
+            } else if (op == "doneN" && w.size() == 4 && vh::to_u64(w[1], n) && vh::to_u64(w[2], n2) && vh::to_u64(w[3], n3) &&
+                       n2 <= 2000000 && n3 <= 255 && sv && sv->held.count((int)n)) {
+                auto it = sv->held.find((int)n);
+                it->second->res().status_code = StatusCode::k200_OK;
+                it->second->res().body = std::string((size_t)n2, (char)n3);
+                sv->held.erase(it);
+                sv->settle();
+            } else if (op == "cclose" && w.size() == 1 && sv && !sv->cclosed) {
+                sv->cclosed = true;
+                sv->clientClose();
+                std::cout << "P closed\n";
+            } else if (op == "dclose" && w.size() == 3 && vh::to_u64(w[1], n) && vh::unhex(w[2], d) && sv && !sv->cclosed &&
+                       sv->held.count((int)n)) {
+                auto it = sv->held.find((int)n);
+                it->second->res().status_code = StatusCode::k200_OK;
+                it->second->res().body = std::string(d.begin(), d.end());
+                sv->held.erase(it);     // commit, then the peer closes before the loop runs again
+                sv->cclosed = true;
+                sv->clientClose();
+                std::cout << "P closed\n";
             } else ok = false;
         } catch (const std::exception &e) {
             std::cout << "P exception\n";
